@@ -826,9 +826,32 @@ func followedByReturn(p *Prog, st ast.Stmt) bool {
 		list = x.Body
 	}
 	for i, s := range list {
-		if s == st && i+1 < len(list) {
-			_, ok := list[i+1].(*ast.ReturnStmt)
-			return ok
+		if s != st {
+			continue
+		}
+		// the statements up to the next return may do other things, but nothing with a lock
+		for _, nx := range list[i+1:] {
+			if _, ok := nx.(*ast.ReturnStmt); ok {
+				return true
+			}
+			touchesLock := false
+			ast.Inspect(nx, func(z ast.Node) bool {
+				if sel, ok := z.(*ast.SelectorExpr); ok {
+					switch sel.Sel.Name {
+					case "Lock", "Unlock", "RLock", "RUnlock":
+						touchesLock = true
+					}
+				}
+				return true
+			})
+			if touchesLock {
+				return false
+			}
+			switch nx.(type) {
+			case *ast.ExprStmt, *ast.AssignStmt:
+			default:
+				return false
+			}
 		}
 	}
 	return false
